@@ -209,6 +209,7 @@ class Instr(object):
 
     def __init__(self, rig):
         self.log = []
+        self.log_threads = []
         self.armed = None          # (dir, layer index, occurrence)
         self.fired = 0
         self.count = {}
@@ -230,12 +231,18 @@ class Instr(object):
                 me.fired += 1
                 raise RuntimeError("injected")
             me.log.append(key)
+            me.log_threads.append(threading.get_ident())
             return orig(data)
         inst.__dict__[attr] = w
 
     def begin_op(self):
         self.log = []
+        self.log_threads = []
         self.count = {}
+
+    def log_of(self, ident):
+        """entries made by one thread (a handshake worker writing its hello at the same time is not part of the op)"""
+        return [k for k, t in zip(self.log, self.log_threads) if t == ident]
 
 
 def model_kind(op):
@@ -639,8 +646,8 @@ def run_hs_send(ctx, model, scn, seed):
         else:
             out = {"outcome": "blocked" if st == "blocked" else "harness_error", "exc": None if st == "blocked" else repr(r),
                    "wire_frames": 0, "wire_error": None, "top": 0}
-        out.update({"locks": rig.lock_table(), "log": [list(x) for x in ins.log], "role": role, "thread": thread,
-                    "op": list(op)})
+        out.update({"locks": rig.lock_table(), "log": [list(x) for x in ins.log_of(w.t.ident)], "role": role,
+                    "thread": thread, "op": list(op)})
         executed.append([thread, S(TOP) if op[0] == "send" else U(0), model_kind(op), list(failspec) if failspec else []])
         obs.append(out)
         return out
